@@ -431,7 +431,7 @@ func TestVerif_C20_create(t *testing.T) {
 // crypto/rand.Reader by an injected source, so that the whole header is predictable.
 func TestVerif_C20_auth(t *testing.T) {
 	s := verifh.New(t, "C20", "auth",
-		"challenge structs: 60% real parseChallenge output of grammatical challenges, 40% direct field tuples (qop lists with/without 'auth', unknown/empty/-sess algorithms, userhash true/false/TRUE, empty/odd realm, nonce, opaque) x user/password (colon, UTF-8, Latin-1, empty, long, quote/backslash/comma) x method x URI with query x nc in {0,1,9,255,2^28,2^32} x 16 injected entropy bytes or entropy failure; answer = the exact Authorization value or the error kind; oracle on parser-derived cases: the independent verifier accepts; non-trivial = header produced or a named error")
+		"challenge structs: 60% real parseChallenge output of grammatical challenges, 40% direct field tuples (qop lists with/without 'auth', unknown/empty/-sess algorithms, userhash true/false/TRUE, empty/odd realm, nonce, opaque) x user/password (colon, UTF-8, Latin-1, empty, long, quote/backslash/comma) x method x URI with query x nc in {0,1,9,255,2^28,2^32} x 16 injected entropy bytes or entropy failure; answer = the exact Authorization value or the error kind (model of the repaired code; the model of the code as found classes the known finding); the independent verifier judges the whole pipeline in lane create; non-trivial = header produced or a named error")
 	restore, row13 := c20InstallIdentity()
 	defer restore()
 	r := s.Rand()
